@@ -50,6 +50,8 @@ ASSUMPTIONS = [
     "values handed to gym / dm_env conversions are the canonical form (NumPy view of the JAX array)",
     "gym.spaces.Discrete cannot carry a dtype: its samples are checked against a DiscreteArray modulo the "
     "integer dtype (range and shape only) unless the declared dtype is int32",
+    "a gym sample that lies outside its own gym space (gymnasium's integer Box sampler clips to dtype "
+    "min+2 / max-2) is not held against the conversion",
     "child names of nested specs avoid attribute names of Spec itself (name, validate, replace, ...)",
     "constructor arguments stay inside what the docstrings allow (bounds representable in dtype, "
     "min <= max, positive num_values that fit the dtype)",
@@ -517,9 +519,11 @@ def mutate(d, attr, r):
             shape, flat = list(d["nv"]["shape"]), d["nv"]["flat"]
             if len(shape) >= 3:
                 return None
-            if r % 2 == 0:
+            if r % 3 == 0:
                 return dict(d, nv={"shape": [1] + shape, "flat": list(flat)})
-            return dict(d, nv={"shape": [2] + shape, "flat": list(flat) * 2})
+            if r % 3 == 1:
+                return dict(d, nv={"shape": [2] + shape, "flat": list(flat) * 2})
+            return dict(d, nv={"shape": shape + [2], "flat": [v for v in flat for _ in range(2)]})
         return dict(d, shape=[[1], [2]][r % 2] + list(d["shape"]))
     if attr in ("min", "max") and k == "bounded":
         b = d[attr]
@@ -1011,12 +1015,6 @@ def check_values(E, s, d, values, real=None, tag=""):
                        f"{tag}member value rejected by converted dm_env spec {dm_spec!r}: {type(e).__name__}: "
                        f"{str(e)[:300]}\n  spec={s!r}\n  value={_short(v)}")
     return gym_space
-
-
-def _first_leaf(v):
-    while v["k"] == "nested":
-        v = v["c"][sorted(v["c"])[0]]
-    return v
 
 
 def _value_class(v):
